@@ -88,6 +88,10 @@ TABLE = [
     ("alg3.md5-50", "PasswordAlgorithm::authenticate_owner_password_r4", "ranges", r"^Range::Range\{0,50\}$", 1, "Algorithm 3(c)/7: 50 further MD5 rounds"),
     ("alg7.rc4-19-down", "PasswordAlgorithm::authenticate_owner_password_r4", "ranges", r"^rev\(new\(1,19\)\)$", 1, "Algorithm 7(b): RC4 with keys XOR 19 down to 1"),
     ("alg7.rev3", "PasswordAlgorithm::recover_user_password_r4", "conds", r"^Ge\(arg1\.revision,3\)$", 3, "Algorithm 3(c),(d) / 7(b): the 50 MD5 rounds, the key length and the 19 RC4 passes each depend on revision 3 or greater"),
+    ("alg7.pad-32", "PasswordAlgorithm::recover_user_password_r4", "calls", r"^update\(.+, index\(.+,RangeTo::RangeTo\{min\(len\(.+\),32\)\}\)\)$", 1, "Algorithm 3(a)/7(a): the first min(len, 32) bytes of the owner password are hashed"),
+    ("alg7.pad-rest", "PasswordAlgorithm::recover_user_password_r4", "calls", r"^update\(.+, index\(.+RangeTo::RangeTo\{Sub\(32,min\(len\(.+\),32\)\)\}\)\)$", 1, "Algorithm 3(a)/7(a): followed by the first 32 - len bytes of the padding string"),
+    ("pkcs5.unpad-range", "Pkcs5::unpad", "conds", r"^Gt\(.+ as usize,len\(arg1\)\)$", 1, "RFC 8018 / ISO 32000-1 7.6.2: the padding length n is valid for 1 <= n <= block size (a whole block of padding is legal): rejected only if n > block size"),
+    ("pkcs5.unpad-zero", "Pkcs5::unpad", "conds", r"^Eq\(.+,0\)$", 1, "a padding length of 0 is invalid"),
     ("alg5.pad", "PasswordAlgorithm::compute_hashed_user_password_r3_r4", "calls", r"^update\(.+, encryption::algorithms::PAD_BYTES\)$", 1, "Algorithm 5(b): MD5 of the padding string"),
     ("alg5.rc4-19-up", "PasswordAlgorithm::compute_hashed_user_password_r3_r4", "ranges", r"^new\(1,19\)$", 1, "Algorithm 5(e): RC4 with keys XOR 1 to 19"),
     ("alg1.objnum-3le", "<Rc4CryptFilter as CryptFilter>::compute_key", "calls", r"^index\(to_le_bytes\(arg3\.0\), RangeTo::RangeTo\{3\}\)$", 1, "Algorithm 1(b): low-order 3 bytes of the object number, low-order byte first"),
@@ -202,6 +206,25 @@ def revision_dispatch(ctx, F):
                    what="%s selects %s for revisions %s; the algorithm it implements is defined for revisions %s"
                         % (fn, c.cname.rsplit("::", 1)[-1], sorted(got), sorted(want or [])))
     ctx.floor("R-TABLE", "revision dispatch sites", n, 8)
+
+
+def identity_only_by_name(ctx, F, R="R-TABLE"):
+    # ... and ONLY that name: wherever the fallback makes an IdentityCryptFilter, the comparison of the name with `Identity` was
+    # true (an empty StmF/StrF — every V 1 / V 2 handler — must still get RC4, or `encrypt` leaves the document in plaintext)
+    import inv as _inv
+    nid = 0
+    for q in sorted(F.reach([F.fn("EncryptionState::get_stream_filter").path, F.fn("EncryptionState::get_string_filter").path])):
+        qb = F.bodies[q]
+        if not qb.file.endswith("encryption.rs"):
+            continue
+        for c in qb.calls:
+            if re.search(r"sync::Arc::<.*IdentityCryptFilter.*>::new$|sync::Arc::<T>::new$", c.fn or "") and "IdentityCryptFilter" in (c.full or ""):
+                nid += 1
+                gs = _inv.rendered_guards(qb, c.bb)
+                okid = any("Identity" in g and tr for g, tr in gs)
+                ctx.ob(R, "identity-only-by-name|%s" % F.canon_of(qb), okid, "the identity filter is chosen under the test of the name against `Identity`", qb.where(c.ln),
+                       what="%s chooses the identity crypt filter without the name having been found equal to `Identity` (dominating tests: %s): handlers without crypt filter names (V 1, V 2) then encrypt nothing" % (F.canon_of(qb), [("" if tr else "!") + g for g, tr in gs]))
+    ctx.floor(R, "places where the fallback makes an IdentityCryptFilter", nid, 1)
 
 
 def revision_not_version(ctx, F):
@@ -423,6 +446,7 @@ def run(ctx):
         ok = b"Identity" in fx["consts"] or has(fx["calls"], r"Identity")
         ctx.ob(R, "identity-predefined|%s" % fn, ok, "%s treats the predefined name Identity as no encryption" % fn, F.fn(fn).where(),
                what="%s resolves a filter name that is absent from CF to RC4, including the predefined name Identity: with StmF/StrF /Identity data is RC4-encrypted anyway (other readers see garbage; conforming files are mangled on decryption)" % fn)
+    identity_only_by_name(ctx, F)
     # /Length: value-set analysis over the parsed key length (domain 0..=512; conditions on V are left open, so the set reaching
     # the code after the test is the union over all versions).  256 must be able to pass (V 5 dictionaries carry it), nothing
     # below 40 and no non-multiple of 8 may pass for any version (n = Length / 8 feeds hash[..n] and the RC4 key schedule).
